@@ -62,9 +62,11 @@ NoArgCmds  == {"NOOP", "CHECK", "LOGOUT", "CAPABILITY", "STARTTLS", "UNAUTHENTIC
 AnyState   == {"NOOP", "CHECK", "LOGOUT", "CAPABILITY"}
 \* "STARTTLS-PIPED": the STARTTLS line with further commands (LOGIN, SELECT, ...) appended in the same
 \* segment, i.e. plaintext that reaches the server before the TLS handshake (C17 / RFC 3207 section 6)
+\* "STARTTLS-GARBAGE": STARTTLS answered OK, then - instead of a TLS handshake - octets that are no TLS record, and
+\* more plaintext commands: the upgrade has failed, the connection is over, nothing of it is executed
 \* "AUTHENTICATE-X": AUTHENTICATE with a mechanism other than PLAIN (XTEST) and an initial response
 \* "AUTHENTICATE-CONT": AUTHENTICATE PLAIN without initial response; the credentials follow the continuation request
-NotAuthCmds == {"STARTTLS", "STARTTLS-PIPED", "LOGIN", "AUTHENTICATE", "AUTHENTICATE-CANCEL", "AUTHENTICATE-X", "AUTHENTICATE-CONT"}
+NotAuthCmds == {"STARTTLS", "STARTTLS-PIPED", "STARTTLS-GARBAGE", "LOGIN", "AUTHENTICATE", "AUTHENTICATE-CANCEL", "AUTHENTICATE-X", "AUTHENTICATE-CONT"}
 AuthCmds   == {"ENABLE", "CREATE", "DELETE", "RENAME", "SUBSCRIBE", "UNSUBSCRIBE", "STATUS",
                "LIST", "LSUB", "NAMESPACE", "IDLE", "SELECT", "EXAMINE", "APPEND",
                "UNAUTHENTICATE"}
@@ -74,7 +76,7 @@ SelCmds    == {"CLOSE", "UNSELECT", "EXPUNGE", "UID EXPUNGE", "FETCH", "UID FETC
 Cmds == AnyState \cup NotAuthCmds \cup AuthCmds \cup SelCmds \cup {"XUNKNOWN"}
 
 \* one representative per command family (used for depth-bounded enumeration)
-FamilyCmds == {"NOOP", "LOGOUT", "STARTTLS", "STARTTLS-PIPED", "LOGIN", "AUTHENTICATE-CANCEL", "AUTHENTICATE-X", "AUTHENTICATE-CONT", "UNAUTHENTICATE",
+FamilyCmds == {"NOOP", "LOGOUT", "STARTTLS", "STARTTLS-PIPED", "STARTTLS-GARBAGE", "LOGIN", "AUTHENTICATE-CANCEL", "AUTHENTICATE-X", "AUTHENTICATE-CONT", "UNAUTHENTICATE",
                "ENABLE", "STATUS", "IDLE", "SELECT", "APPEND", "CLOSE", "UNSELECT", "UID FETCH",
                "MOVE", "XUNKNOWN"}
 
@@ -144,7 +146,7 @@ Init ==
 Alive == ~closed /\ state # "logout"
 
 \* A syntactically broken command: tagged BAD, nothing else happens.
-BadSyntax(c) == Alive /\ c \notin {"XUNKNOWN", "STARTTLS-PIPED"} /\ Refuse
+BadSyntax(c) == Alive /\ c \notin {"XUNKNOWN", "STARTTLS-PIPED", "STARTTLS-GARBAGE"} /\ Refuse
 
 \* One-call commands: f = 1 makes the backend call fail.
 Simple(c, f) ==
@@ -290,7 +292,7 @@ Good(c, f) ==
   \/ f = 0 /\ c = "LOGOUT" /\ Logout
   \/ f = 0 /\ c = "XUNKNOWN" /\ Unknown
   \/ f = 0 /\ c = "STARTTLS" /\ StartTLS
-  \/ f = 0 /\ c = "STARTTLS-PIPED" /\ StartTLSPiped
+  \/ f = 0 /\ c \in {"STARTTLS-PIPED", "STARTTLS-GARBAGE"} /\ StartTLSPiped
   \/ Login(c, f)
   \/ c = "AUTHENTICATE-CANCEL" /\ AuthCancel(f)
   \/ c = "AUTHENTICATE-X" /\ AuthX(f)
